@@ -144,6 +144,8 @@ where
                 } else {
                     vars.push((var, power));
                 }
+            } else {
+                return Err(PolynomialError::UnexpectedChar { char: ch });
             }
         }
         vars.sort_by(|a, b| a.0.cmp(&b.0));
